@@ -409,3 +409,122 @@ def selftest_birds():
     assert s.ok and s.part == [] and s.inf == [0]
     assert rm.answer(s, 'system-z', *b.q(V('a'), V('b'))) is True      # antecedent infeasible
     assert rm.answer(s, 'system-z', *b.q(V('a'), Not(V('b')))) is False
+
+
+# ---------------------------------------------------------------------------------------------------------
+# Large bases judged by the DEFINITION (vf/bigref.py: satisfiability-based, certified models), not only
+# relationally: p-entailment, System Z, lex_inf and System W exactly (W by counterexample-guided search; if it
+# does not converge, through Z <= W <= lex); c-inference through the bounds the definitions force
+# (p <= c <= W <= lex).
+
+BIG_N = {'quick': 64, 'thorough': 900}
+
+
+def big_cases(prop, tier, seed):
+    return [{'prop': prop, 'seed': seed, 'idx': 2 * 10 ** 6 + i, 'big': True, 'tier': tier} for i in range(BIG_N[tier])]
+
+
+def big_source(rng, tier, weakly, cinf):
+    """(sig, conds, source tag) of a base with 8 .. 60 (thorough: 100) atoms"""
+    from .. import corpus
+    r = rng.random()
+    if cinf:
+        if r < 0.5:
+            files = [f for f in corpus.random_large(20) if f[0] >= 8]
+            a, c, i, path = files[rng.randrange(len(files))]
+            _, sig, conds = corpus.load(path)
+            return sig, conds, path.split('/examples/')[-1]
+        sig, conds = corpus.union_base(rng, parts=rng.randint(2, 4), want='strong')
+        return sig, conds, 'union'
+    if r < 0.4 and not weakly:
+        files = [f for f in corpus.random_large(40 if tier == 'quick' else 100) if f[0] >= 8]
+        a, c, i, path = files[rng.randrange(len(files))]
+        _, sig, conds = corpus.load(path)
+        return sig, conds, path.split('/examples/')[-1]
+    if r < 0.55 and not weakly:
+        ps = corpus.other_corpora()
+        path = ps[rng.randrange(len(ps))]
+        _, sig, conds = corpus.load(path)
+        return sig, conds, path.split('/examples/')[-1]
+    sig, conds = corpus.union_base(rng, parts=rng.randint(3, 8), want='weak_or_strong' if weakly else 'strong')
+    return sig, conds, 'union'
+
+
+def run_big_case(case, prop, configs, weakly):
+    from .. import bigref, corpus
+    rng = gen.rng_for(case['seed'], prop, case['idx'])
+    res = {'evals': 0, 'nontrivial': [], 'violations': [], 'inconclusive': [], 'counters': {}}
+    cnt = res['counters']
+
+    def bump(k, sub=None, n=1):
+        if sub is None:
+            cnt[k] = cnt.get(k, 0) + n
+        else:
+            d = cnt.setdefault(k, {})
+            d[sub] = d.get(sub, 0) + n
+    cinf = any(c[0] == 'c-inference' for c in configs)
+    sig, conds, src = big_source(rng, case.get('tier', 'quick'), weakly, cinf)
+    mode = 'extended' if weakly else 'strict'
+    bdesc = {'source': src, 'atoms': len(sig), 'conditionals': len(conds)}
+    if len(conds) <= 12:
+        bdesc.update(base_desc(sig, conds))
+    try:
+        B_ = bigref.BigBase(sig, conds)
+        S = bigref.BigSetup(B_, weakly)
+        if not S.ok:
+            bump('large_base_not_acceptable_in_mode')
+            return res
+        qs = corpus.derived_queries(rng, sig, conds, 6, layers=S.part or None)
+        exp = {}
+        for (system, p) in configs:
+            if system not in exp:
+                exp[system] = [S.bounds(system, B, A) for (B, A) in qs]
+    except bigref.OracleError as e:
+        res['inconclusive'].append('large-base oracle: %s' % e)
+        return res
+    bump('large_bases_judged_by_definition')
+    bump('large_base_layers', str(len(S.part)))
+    bump('large_base_atoms', str(10 * (len(sig) // 10)) + '+')
+    bump('oracle_sat_certified', None, B_.sat_certified)
+    bump('oracle_unsat_trusted', None, B_.unsat_trusted)
+    if S.inf:
+        bump('large_bases_with_infinity_layer')
+    keys = None
+    if rng.random() < 0.25:
+        keys = sorted(rng.sample(range(0, 2 * len(conds) + 3), len(conds)))
+    parallel = rng.random() < 0.05
+    for (system, p) in configs:
+        cname = impl.cfg_name(system, p)
+        try:
+            df = impl.ask(impl.mk_bb(sig, conds, keys=keys), system, p, impl.mk_queries(qs), weakly=weakly,
+                          **({'multi_inference': True} if parallel else {}))
+            got = impl.results(df)
+            if len(got) != len(qs):
+                raise RuntimeError('row count %d != %d' % (len(got), len(qs)))
+        except BaseException as e:  # noqa
+            if isinstance(e, KeyboardInterrupt) or type(e).__name__ == 'SoftTimeout':
+                raise
+            res['violations'].append({'sig': '%s:%s:exception:%s:large-base' % (cname, mode, type(e).__name__),
+                                      'detail': {'base': bdesc, 'error': str(e)[:200], 'queries': [fml.cond_text(*q) for q in qs]}})
+            continue
+        for qi, ((lo, hi), g) in enumerate(zip(exp[system], got)):
+            res['evals'] += 1
+            exact = lo is not None and lo == hi
+            bump('large_rows_decided_by_definition' if exact else 'large_rows_only_bounded', cname)
+            if exact:
+                bump('large_answers', '%s=%s' % (cname, g))
+                res['nontrivial'].append(h(bdesc, fml.cond_text(*qs[qi]), cname, mode, 'big'))
+            bad = None
+            if lo is True and g is not True:
+                bad = 'wrong-answer(impl=False,def=True)'
+            elif hi is False and g is not False:
+                bad = 'wrong-answer(impl=True,def=False)'
+            if bad:
+                res['violations'].append({
+                    'sig': '%s:%s:%s:large-base%s' % (cname, mode, bad, '' if exact else ':by-inclusion-bounds'),
+                    'detail': {'base': bdesc, 'query': fml.cond_text(*qs[qi]), 'impl': g,
+                               'definition_bounds': [lo, hi], 'partition_sizes': [len(l) for l in S.part],
+                               'infinity_layer': len(S.inf), 'keys': keys}})
+    res['sample'] = {'base': bdesc, 'mode': mode, 'kind': 'large base judged by the satisfiability-based definition',
+                     'queries': [fml.cond_text(*q) for q in qs[:3]], 'layers': [len(l) for l in S.part]}
+    return res
